@@ -1212,7 +1212,7 @@ fn e2e_case(sink: &mut Sink, dict: &JapaneseDictionary, lex_hex: &[(String, Stri
         // char.def of the test resources: DEFAULT 0 1 0, ALPHA 1 1 0; unk2.def: DEFAULT -> 補助記号,一般  ALPHA -> 名詞,普通名詞,一般
         let pos_sym = g.get_part_of_speech_id(&["補助記号", "一般", "*", "*", "*", "*"]).unwrap_or(0);
         format!(
-            "[O.PMecab (O.mkMecab [O.mkCI 1 false true 0%nat; O.mkCI 32 true true 0%nat] [(1%N, [O.mkOov 7 7 3857 {}]); (32%N, [O.mkOov 7 7 11633 {}])]); {}]",
+            "[O.PMecab (O.mkMecab [O.mkCI 1 false true 0%N; O.mkCI 32 true true 0%N] [(1%N, [O.mkOov 7 7 3857 {}]); (32%N, [O.mkOov 7 7 11633 {}])]); {}]",
             cn(pos_sym),
             cn(pos_noun),
             simple
